@@ -110,7 +110,11 @@ static Outcome runCase(const KV& c)
         }
     }
     // (ii) different thread counts: no more than floating-point re-association
-    const double rel = solve ? 1e-6 : ((op >= OP11_SM_GIVE && op <= OP11_DS_TAKE) ? 1e-8 : 1e-10);
+    // line and direct solves amplify the re-association of the give-type accumulation by their condition number, which grows
+    // with the grid: on the levels above 10000 nodes (drawn since round 11) 1.2e-8 was observed on the unchanged tree
+    // between 1 and 2 threads, so the bound there is 1e-6; thread-count defects show up as 1e-3 and more
+    const bool large = c.getS("size_class", "") == "above_10000_nodes";
+    const double rel = solve ? 1e-6 : ((op >= OP11_SM_GIVE && op <= OP11_DS_TAKE) ? (large ? 1e-6 : 1e-8) : 1e-10);
     double dmax = 0;
     bool bitwise = true;
     for (size_t i = 0; i < a1.size(); i++) {
